@@ -5,11 +5,13 @@ usage: c13_probe.py <twisted|asyncio>      -> JSON on stdout; a value that canno
 
 twisted:  per role (server/client): magic (the only accepted first octet), powBase/expAdd/shift (fit of `_max_len_send` over all 256
           second octets), serMask (fit of accept/serializer over all 256 second octets), hsLen (octets before the handshake is judged),
-          sendGuard (512 goes out, 513 raises PayloadExceededError with peer maximum 512);
+          sendGuard (512 goes out, 513 raises PayloadExceededError with peer maximum 512); sendFrameCap (peer exponent 15: 2^24 - 1 octets
+          go out, 2^24 are refused -> 2^24 - 1; both go out -> 0); lengthLimitAction (over-long header: 0 abort, 1 raises, 2 close);
           plus the WebSocket mixin values (framework independent): wsWord, wsVersion, wsPrefix, close codes; serializer table.
 asyncio:  magic, powBase/expAdd/shift/serMask (fit of `max_length_send`), typeMask/typeData/typePing/typePong (dispatch of all 256 first
           frame octets), errSerUnsupported (high nibble of the error reply), defaultMaxLength, lengthExp (client request octet),
-          serverAbortsOnUnsupported (exception escapes / no reply), sendOverLimitExc (class raised by send()).
+          serverAbortsOnUnsupported (exception escapes / no reply), sendOverLimitExc (class raised by send()), sendFrameCap /
+          sendStringFrameCap (as above), pingRaises / pongRaises / pingReplyType (PING and PONG frames of several lengths).
 """
 import json
 import sys
@@ -72,6 +74,39 @@ def maxsend(p):
 def one(vals):
     vals = sorted(set(vals))
     return vals[0] if len(vals) == 1 else None
+
+
+def frame_cap(send_len):
+    """send_len(n) -> "sent" (wire = 4 + n octets) | "refused" (exception, nothing written) | None; with the peer announcing 2^24:
+    2^24 - 1 sent and 2^24 refused -> cap 2^24 - 1; both sent -> 0 (no cap); anything else -> None"""
+    try:
+        a, b = send_len(2 ** 24 - 1), send_len(2 ** 24)
+    except Exception:
+        return None
+    if a == "sent" and b == "refused":
+        return 2 ** 24 - 1
+    if a == "sent" and b == "sent":
+        return 0
+    return None
+
+
+def established(role="server", o2=0xF1):
+    p, t, s, _ = mk(role, [1])
+    feed(p, bytes([0x7F, o2, 0, 0]))
+    t.take()
+    return p, t, s
+
+
+def msg_sender(p, t):
+    base = len(p._serializer.serialize(message.Publish(1, "a.b", args=[""]))[0])
+
+    def send_len(n):
+        try:
+            p.send(message.Publish(1, "a.b", args=["x" * (n - base)]))
+        except Exception:
+            return "refused" if not t.take() else None
+        return "sent" if len(t.take()) == n + 4 else None
+    return send_len
 
 
 def fit_pow(v):
@@ -177,6 +212,26 @@ if fw == "twisted":
     except Exception as e:
         res["sendGuard"] = None
         res["sendGuardError"] = type(e).__name__
+    p, t, s = established()
+    res["sendFrameCap"] = frame_cap(msg_sender(p, t))
+    # an over-long frame header (local maximum 512)
+    try:
+        s_ = Sess()
+        f = R.WampRawSocketServerFactory(lambda: s_, serializers=[SERS[1]()])
+        f.setProtocolOptions(maxMessagePayloadSize=512)
+        p = f.buildProtocol(None)
+        t = ws.RecTransport(env)
+        p.makeConnection(t)
+        feed(p, bytes([0x7F, 0xF1, 0, 0]))
+        t.take()
+        n0 = len(t.log)
+        exc = feed(p, bytes([0, 0, 2, 1]))
+        calls = [e[0] for e in t.log[n0:] if e[0] != "write"]
+        res["lengthLimitAction"] = (1 if exc == "PayloadExceededError" and not calls else
+                                    0 if exc is None and calls == ["abort"] else
+                                    2 if exc is None and calls == ["lose"] else None)
+    except Exception as e:
+        res["lengthLimitAction"] = None
     # ---- serializer table (importable classes only)
     sers = []
     for name in dir(S):
@@ -331,4 +386,37 @@ else:
         res["sendOverLimitExc"] = exc if (okc and exc and not t.take()) else None
     except Exception as e:
         res["sendOverLimitExc"] = None
+    p, t, s = established()
+    res["sendFrameCap"] = frame_cap(msg_sender(p, t))
+    p, t, s = established()
+
+    def ss_len(n):
+        try:
+            p.sendString(b"x" * n)
+        except Exception:
+            return "refused" if not t.take() else None
+        return "sent" if len(t.take()) == n + 4 else None
+    res["sendStringFrameCap"] = frame_cap(ss_len)
+    # PING / PONG frames of several lengths
+    pr, rt, po = [], [], []
+    for n in (0, 1, 2, 300):
+        payload = bytes((65 + i) % 256 for i in range(n))
+        ln = bytes([(n >> 16) & 255, (n >> 8) & 255, n & 255])
+        p, t, s = established()
+        exc = feed(p, bytes([res["typePing"] if res["typePing"] is not None else 1]) + ln + payload)
+        w = t.take()
+        if exc == "NotImplementedError" and not w and not t.closed:
+            pr.append(True)
+        elif exc is None and not t.closed and len(w) == 4 + n and w[1:4] == ln and w[4:] == payload:
+            pr.append(False)
+            rt.append(w[0])
+        else:
+            pr.append(None)
+        p, t, s = established()
+        exc = feed(p, bytes([res["typePong"] if res["typePong"] is not None else 2]) + ln + payload)
+        w = t.take()
+        po.append(True if (exc == "NotImplementedError" and not w and not t.closed) else
+                  False if (exc is None and not w and not t.closed and not p._buffer) else None)
+    res["pingRaises"], res["pongRaises"] = one(pr), one(po)
+    res["pingReplyType"] = (one(rt) if rt else 0) if res["pingRaises"] is not None else None
 json.dump(res, sys.stdout)
